@@ -44,7 +44,7 @@ class Case:
 
     def __init__(self, rnd, nfun_max=2, with_data=True, with_aux=True, with_cfi=True, mods="ins,del,rep", with_funcs=True, max_mods=3,
                  closed_tail=False, to_proxy=True, with_lead=False, with_scope=True, with_misc=True, with_ext=False, cfi_patches=False, data_first=0.12, whole_del=0.0, inner_data=0.0, orphan_code=0.0, with_syscall=False, late_entry=0.0, align_patches=False, uneven_returns=0.0, multi_labels=False,
-                 call_history=0.0):
+                 call_history=0.0, shared_ret_proxy=0.0, same_size_data=0.0):
         self.rnd = rnd
         # bytes in front of the first block that belong to no block (the interval starts at 0x1000 - lead, the blocks at 0x1000)
         self.lead = rnd.choice((1, 2, 5)) if with_lead and rnd.random() < 0.12 else 0
@@ -186,6 +186,9 @@ class Case:
                 used.append((off, ln))
                 if x["kind"] == "c":
                     patch = rnd.choice(PATCHES + (CFI_PATCHES * 4 if cfi_patches else []) + (ALIGN_PATCHES * 2 if align_patches else []) + (MULTI_LABEL_CODE * 2 if multi_labels else [])).replace("{L}", f"L{rnd.choice(code_idx)}")
+                elif same_size_data and t == "rep" and not x.get("dsym") and rnd.random() < same_size_data:
+                    # a replacement by as many bytes as it removes (an in-place overwrite, if the library has such a path)
+                    patch = bytes(0xa0 + k_ for k_ in range(ln))
                 else:
                     patch = rnd.choice(DATA_PATCH) if rnd.random() < 0.75 or x.get("dsym") else rnd.choice(DATA_TEXT_PATCH + (MULTI_LABEL_DATA * 2 if multi_labels else []))
                 whole = t == "del" and off == 0 and ln == self.size(i)
@@ -199,6 +202,8 @@ class Case:
             group = [(i, "ins", 0, 0, patch, False) for i in code_idx]
             self.mods[pos:pos] = group
             self.scope_groups = {pos + k: 0 for k in range(len(group))}
+        # unknown return targets: one ProxyBlock per `ret`, or (as disassemblers also do) one shared by every unresolved return
+        self.shared_ret_proxy = bool(shared_ret_proxy) and random.Random(len(layout) * 7919 + len(self.mods)).random() < shared_ret_proxy
         # a history around one function F: a call to F inserted in front of F's returning block, a modification that moves F's `ret`
         # into another block (a patch with a label in the middle of the returning block: the pieces cannot be joined back), and a
         # second call to F inserted behind it.  Whatever is remembered about "the returning blocks of F" at the first call is stale
@@ -238,7 +243,7 @@ class Case:
             if isinstance(v, dict):
                 return {"dict": [[enc(k), enc(x)] for k, x in v.items()]}
             return v
-        return {k: enc(getattr(self, k)) for k in ("blocks", "nfun", "extra_start", "end_labels", "aux", "align", "cfi", "entry", "mods", "lead", "misc", "scope_groups", "entry_of", "unresolved")}
+        return {k: enc(getattr(self, k)) for k in ("blocks", "nfun", "extra_start", "end_labels", "aux", "align", "cfi", "entry", "mods", "lead", "misc", "scope_groups", "entry_of", "unresolved", "shared_ret_proxy")}
 
     @classmethod
     def from_json(cls, d):
@@ -258,6 +263,7 @@ class Case:
         c.scope_groups = {}
         c.entry_of = {}
         c.unresolved = set()
+        c.shared_ret_proxy = False
         for k, v in d.items():
             setattr(c, k, dec(v))
         c.blocks = [{kk: ([tuple(i) for i in vv] if kk == "ins" else vv) for kk, vv in b.items()} for b in c.blocks]
@@ -386,7 +392,12 @@ def build(case):
                 for r in callers[f]:
                     add_edge(ir.cfg, gbs[i], r, ET.Return)
             else:
-                add_edge(ir.cfg, gbs[i], add_proxy_block(m), ET.Return)
+                if getattr(case, "shared_ret_proxy", False):
+                    if getattr(B, "ret_proxy", None) is None:
+                        B.ret_proxy = add_proxy_block(m)
+                    add_edge(ir.cfg, gbs[i], B.ret_proxy, ET.Return)
+                else:
+                    add_edge(ir.cfg, gbs[i], add_proxy_block(m), ET.Return)
     for (t, key, d, v) in case.aux:
         elem = bi if key == "bi" else gbs[key]
         base = case.lead if key == "bi" else 0
